@@ -35,10 +35,16 @@ func runCkEnc(tags string, a []Val) {
 	w.Case("ck.enc", tags, fmtVals(a), fmtVals([]Val{VBy(enc), VBool(ok), d}))
 }
 
-// ck.dec: which, bytes, [cookie decoded into] -> ok, [decoded]
+// ck.dec: which, bytes, [cookie decoded into] -> ok, [decoded], re-encoding, its decode ok, [its decoding]
 func runCkDec(tags string, a []Val) {
 	ok, d := ckDecode(a[0].Int(), a[2], a[1].B)
-	w.Case("ck.dec", tags, fmtVals(a), fmtVals([]Val{VBool(ok), d}))
+	// a decoded cookie, encoded and decoded again (into a fresh struct), is the same cookie
+	re, ok2, d2 := []byte(nil), false, VL()
+	if ok {
+		re = ckEncode(a[0].Int(), uint16(d.L[0].Uint()), d.L[1].B, d.L[2].B)
+		ok2, d2 = ckDecode(a[0].Int(), VL(VI(0), VBy(nil), VBy(nil)), re)
+	}
+	w.Case("ck.dec", tags, fmtVals(a), fmtVals([]Val{VBool(ok), d, VBy(re), VBool(ok2), d2}))
 }
 
 // ck.crypt: algo, s2c, c2s, key, keyid -> ok, algo, s2c, c2s, id after
@@ -68,7 +74,12 @@ func genCk0(r *lib.Rng) Val {
 }
 
 func genCookies(r *lib.Rng, thorough bool) {
-	klen := func() int { return lib.Pick(r, 0, 1, 2, 16, 32, 32, 32, 64, r.Intn(80), 255, 256, 257) }
+	klen := func() int {
+		if r.Intn(12) == 0 { // lengths that need the high byte of the 16-bit length field
+			return lib.Pick(r, 258, 1000, 1024, 1025, 4096, 65535, 258+r.Intn(3000))
+		}
+		return lib.Pick(r, 0, 1, 2, 16, 32, 32, 32, 64, r.Intn(80), 255, 256, 257)
+	}
 	step := 61
 	if thorough {
 		step = 1
